@@ -655,12 +655,14 @@ impl Check for C02 {
             Phase { name: "protected byte strings whose content is a tagged map, a wrapped map, a map with trailing bytes ...: if the structure is accepted at all, the received bytes are retained and re-emitted", cases: scale(if q { 12000 } else { 100000 }, b), exhaustive: false },
             Phase { name: "decoded signatures, recipients, counter signatures and supplementary information handed to the adders / setters of the enclosing structure's builder, then encoded", cases: scale(if q { 12000 } else { 100000 }, b), exhaustive: false },
             Phase { name: "birthday: a COSE_Sign with 2^17 signers (and a COSE_Encrypt with 2^17 recipients) whose protected headers are pairwise different byte strings of equal length: each keeps its own bytes", cases: 2, exhaustive: true },
+            Phase { name: "recipient layers (0-13) x counter-signature chain length (0-10) x form: a message whose innermost recipient carries such a chain is accepted exactly when the chain is accepted on its own (an encoding that is refused retains nothing)", cases: 11 * 5, exhaustive: true },
         ]
     }
     fn run_case(&self, ctx: &mut Ctx, phase: usize, idx: u64) {
         let ty = CARRIERS[(idx % 12) as usize];
         let o = GenOpts { styled_prot: 255, built: false, max_depth: 3, mixed: false };
         match phase {
+            6 => super::common::layering_relation_case(ctx, idx),
             5 => {
                 // a decoder that shares parsed headers between positions by a fingerprint of their bytes
                 // (anything shorter than the bytes) hands one position another position's header
